@@ -231,6 +231,18 @@ for i in range(nrandom):
     add(call, seq, dens, natd, wkind, vector, wv, as_list=(vector and rng.random() < 0.3), tag="random")
     stats["random"] += 1
 
+# ---------------------------------------------------------------- B2. whole-number wavelengths and energies as integer vectors
+for i in range(10 if not thorough else 60):
+    must = [rng.choice(pool.tab)] if rng.random() < 0.3 else []
+    seq = pool.nested(rng.randint(0, 2), must=must)
+    wkind = 1 if rng.random() < 0.8 else 2
+    wv = [float(x) for x in rng.sample([1, 2, 3, 4, 5, 6, 7, 10, 12, 25] if wkind == 1 else [1, 2, 5, 10, 25, 40, 80], rng.randint(1, 4))]
+    add(0 if rng.random() < 0.8 else 1, seq, pool.density(), None, wkind, True, wv, as_list=rng.random() < 0.5, tag="integer-vector")
+    stats["integer_vector"] = stats.get("integer_vector", 0) + 1
+a_ = rng.choice([el_ for el_ in pool.with_sld if not core.ision(el_) and el_ not in pool.tab][:40])
+add(2, ((1, a_),), wkind=1, vector=True, wvals=[2.0, 4.0, 7.0], as_list=True, tag="integer-vector-atom")
+add(2, ((1, a_),), wkind=1, vector=True, wvals=[3.0, 5.0], as_list=False, tag="integer-vector-atom")
+
 # ---------------------------------------------------------------- C. the None path and atoms with b_c but no element density
 for i in range(30 if not thorough else 200):
     bad = rng.choice(pool.none)
